@@ -9,11 +9,12 @@ import PygyroVerif.Model.CubicUniform
 import PygyroVerif.Lemmas.BSpline
 import Mathlib.Algebra.Order.Field.Rat
 import Mathlib.Tactic.NormNum
+import Mathlib.Data.Rat.Floor
 
 set_option linter.unusedSectionVars false
 
 namespace PygyroVerif.C07
-open PygyroVerif.BSpline PygyroVerif.CubicUniform
+open PygyroVerif.BSpline PygyroVerif.CubicUniform Polynomial
 
 variable {K : Type*} [Field K] [LinearOrder K] [IsStrictOrderedRing K]
 
@@ -182,6 +183,27 @@ example (c : ℕ → ℚ) : evalSpline1D exKnots 8 2 c (3 : ℚ) false
   evalSpline1D_eq_sum exKnots exKnots_mono 8 2 c 3 (by norm_num [exKnots]) (by norm_num [exKnots])
     (by norm_num [exKnots])
 
+/-- **right end point** `x = t_{nk-1-p}`: the code evaluates the last cell's polynomial there, i.e. the B-spline sum with the
+    left-continuous convention (limit from inside the domain).  The last cell must be non-empty. -/
+theorem evalSpline1D_right_end (t : ℕ → K) (ht : Monotone t) (nk p : ℕ) (c : ℕ → K)
+    (hdom : t p < t (nk - 1 - p)) (hlast : t (nk - 2 - p) < t (nk - 1 - p)) :
+    evalSpline1D t nk p c (t (nk - 1 - p)) false
+      = some (((List.range (nk - 1 - p)).map (fun i => c i * Nleft t p i (t (nk - 1 - p)))).sum) := by
+  obtain ⟨span, hs, hs1, hs2, _, hl, _⟩ := findSpan_some_correct t ht nk p (t (nk - 1 - p)) hdom
+  have hlt : p < nk - 1 - p := by
+    by_contra h
+    exact absurd (ht (not_lt.mp h)) (not_le.mpr hdom)
+  have hsp : span = nk - 2 - p := hl (le_refl _)
+  have e1 : nk - 2 - p + 1 = nk - 1 - p := by omega
+  rw [evalSpline1D_eq_dot t nk p c _ false span hs]
+  congr 1
+  simp only [basisOrDer, Bool.false_eq_true, if_false]
+  subst hsp
+  exact dot_basis_eq_sum_Nleft t ht p (nk - 2 - p) _ hs1 hlast (by rw [e1]) (nk - 1 - p) (by omega) c
+
+example (c : ℕ → ℚ) : evalSpline1D exKnots 8 2 c (exKnots (8 - 1 - 2)) false
+    = some (((List.range (8 - 1 - 2)).map (fun i => c i * Nleft exKnots 2 i (exKnots (8 - 1 - 2)))).sum) :=
+  evalSpline1D_right_end exKnots exKnots_mono 8 2 c (by norm_num [exKnots]) (by norm_num [exKnots])
 /-! ## 4. the 2-D entry point is the tensor product, for all four `(der1, der2)` -/
 
 /-- `nu_eval_spline_2d_scalar`, from the definitions: `Σ_i (Σ_j c[s1-d1+i, s2-d2+j]·B2[j])·B1[i]`, where `B1`/`B2` are
@@ -256,4 +278,280 @@ example (c : ℕ → ℕ → ℚ) : ∃ v, evalSpline2D exKnots 8 2 exKnots 9 3 
     (by norm_num [exKnots]) (by norm_num [exKnots]) (by norm_num [exKnots])
     (by norm_num [exKnots]) (by norm_num [exKnots]) (by norm_num [exKnots])⟩
 
+/-! ## 5. the uniform-cubic fast path is the general path on the uniform knot vector `t_i = xmin + (i-3)·dx` -/
+
+/-- concrete `int(·)` for the examples: the floor of a rational -/
+def exTrunc : ℚ → ℤ := fun q => ⌊q⌋
+theorem exTrunc_spec : ∀ q : ℚ, 0 ≤ q → ((exTrunc q : ℤ) : ℚ) ≤ q ∧ q < ((exTrunc q : ℤ) : ℚ) + 1 :=
+  fun q _ => ⟨Int.floor_le q, Int.lt_floor_add_one q⟩
+
+/-- closed forms of `cu_basis_funs` / `cu_basis_funs_1st_der` = A2.2 / degree-lowering of degree 3 on the uniform knots,
+    for the offset the cubic code uses (`offset = (x-xmin)/dx - (span-3)`), as identities in `x` (any `x`, `dx ≠ 0`) -/
+theorem cubic_eq_general (xmin dx : K) (hdx : dx ≠ 0) (span : ℕ) (hs : 3 ≤ span) (x : K) :
+    cuBasisFuns ((x - xmin) / dx - ((span : K) - 3)) = basisFuns (uniformKnots xmin dx) 3 x span ∧
+    cuBasisFunsDer ((x - xmin) / dx - ((span : K) - 3)) dx = basisFunsDer (uniformKnots xmin dx) 3 x span := by
+  obtain ⟨s, rfl⟩ : ∃ s, span = s + 3 := ⟨span - 3, by omega⟩
+  have ho : (x - xmin) / dx - (((s + 3 : ℕ) : K) - 3) = (x - xmin) / dx - (s : K) := by push_cast; ring
+  rw [ho]
+  set o := (x - xmin) / dx - (s : K) with hodef
+  have h := fun k hk => uniform_left_right xmin dx hdx s x k hk
+  have hl0 := (h 0 (by norm_num)).1; have hr0 := (h 0 (by norm_num)).2
+  have hl1 := (h 1 (by norm_num)).1; have hr1 := (h 1 (by norm_num)).2
+  have hl2 := (h 2 (by norm_num)).1; have hr2 := (h 2 (by norm_num)).2
+  rw [← hodef] at hl0 hl1 hl2 hr0 hr1 hr2
+  constructor
+  · unfold basisFuns
+    rw [levels_uniform3 _ _ o dx hdx (by rw [hl0]; push_cast; ring) (by rw [hl1]; push_cast; ring)
+      (by rw [hl2]; push_cast; ring) (by rw [hr0]; push_cast; ring) (by rw [hr1]; push_cast; ring)
+      (by rw [hr2]; push_cast; ring)]
+  · unfold basisFunsDer basisFuns
+    simp only [Nat.add_one_sub_one, Nat.reduceAdd, Nat.reduceSub]
+    rw [levels_uniform2 _ _ o dx hdx (by rw [hl0]; push_cast; ring) (by rw [hl1]; push_cast; ring)
+      (by rw [hr0]; push_cast; ring) (by rw [hr1]; push_cast; ring)]
+    have hr4 : List.range 4 = [0, 1, 2, 3] := by decide
+    have hk : ∀ m, 3 ≤ m → uniformKnots xmin dx m - uniformKnots xmin dx (m - 3) = 3 * dx := by
+      intro m hm
+      simp only [uniformKnots]
+      rw [Nat.cast_sub hm]; push_cast; ring
+    simp only [hr4, List.map_cons, List.map_nil, derSaved, if_true, Nat.reduceSub, Nat.reduceLT, Nat.reduceEqDiff,
+      if_false, List.getD_cons_zero, List.getD_cons_succ, hk _ (by omega : 3 ≤ s + 3 + 0 + 1),
+      hk _ (by omega : 3 ≤ s + 3 + 1 + 1), hk _ (by omega : 3 ≤ s + 3 + 2 + 1), cuBasisFunsDer]
+    push_cast
+    simp only [List.cons.injEq, and_true]
+    refine ⟨?_, ?_, ?_, ?_⟩
+    all_goals field_simp
+    all_goals try ring
+
+/-- `cu_find_span` on the closed domain: for `xmin ≤ x ≤ xmin + ncells·dx` the returned pair is a cell index
+    `3 ≤ s ≤ ncells+2` of the uniform knot vector with `t_s ≤ x ≤ t_{s+1}` (`x < t_{s+1}` except at the right end)
+    and `offset = (x-xmin)/dx - (s-3) ∈ [0,1]` -/
+theorem cuFindSpan_correct (trunc : K → ℤ) (htr : ∀ q : K, 0 ≤ q → ((trunc q : ℤ) : K) ≤ q ∧ q < ((trunc q : ℤ) : K) + 1)
+    (xmin dx x : K) (hdx : 0 < dx) (ncells : ℕ) (hn : 1 ≤ ncells) (hx1 : xmin ≤ x) (hx2 : x ≤ xmin + (ncells : K) * dx) :
+    ∃ s : ℕ, (cuFindSpan trunc xmin dx x (ncells : ℤ)).1 = (s : ℤ) ∧ 3 ≤ s ∧ s ≤ ncells + 2 ∧
+      (cuFindSpan trunc xmin dx x (ncells : ℤ)).2 = (x - xmin) / dx - ((s : K) - 3) ∧
+      0 ≤ (cuFindSpan trunc xmin dx x (ncells : ℤ)).2 ∧ (cuFindSpan trunc xmin dx x (ncells : ℤ)).2 ≤ 1 ∧
+      uniformKnots xmin dx s ≤ x ∧ x ≤ uniformKnots xmin dx (s + 1) ∧
+      (x < xmin + (ncells : K) * dx → x < uniformKnots xmin dx (s + 1)) := by
+  have hq0 : 0 ≤ (x - xmin) / dx := div_nonneg (by linarith) (le_of_lt hdx)
+  have hqn : (x - xmin) / dx ≤ (ncells : K) := by
+    rw [div_le_iff₀ hdx]; linarith
+  obtain ⟨h1, h2⟩ := htr _ hq0
+  set q := (x - xmin) / dx with hq
+  have hxq : x = xmin + q * dx := by rw [hq]; field_simp; ring
+  -- the truncated value is a natural number ≤ ncells
+  have hk0 : 0 ≤ trunc q := by
+    by_contra hneg
+    have : trunc q ≤ -1 := by omega
+    have : ((trunc q : ℤ) : K) ≤ -1 := by exact_mod_cast this
+    linarith
+  obtain ⟨k, hk⟩ := Int.eq_ofNat_of_zero_le hk0
+  rw [hk] at h1 h2
+  have h1' : (k : K) ≤ q := by exact_mod_cast h1
+  have h2' : q < (k : K) + 1 := by exact_mod_cast h2
+  have hkn : k ≤ ncells := by
+    have : (k : K) ≤ (ncells : K) := le_trans h1' hqn
+    exact_mod_cast this
+  unfold cuFindSpan
+  simp only [← hq, hk]
+  by_cases hend : (k : ℤ) = (ncells : ℤ)
+  · rw [if_pos hend]
+    have hkn' : k = ncells := by exact_mod_cast hend
+    subst hkn'
+    have hqk : q = (k : K) := le_antisymm hqn h1'
+    refine ⟨k + 2, by push_cast; ring, by omega, by omega, ?_, by norm_num, by norm_num, ?_, ?_, ?_⟩
+    · simp only; rw [hqk]; push_cast; ring
+    · simp only [uniformKnots]; rw [hxq, hqk]; push_cast; nlinarith
+    · simp only [uniformKnots]; rw [hxq, hqk]; push_cast; nlinarith
+    · intro hlt; rw [hxq, hqk] at hlt; exact absurd hlt (lt_irrefl _)
+  · rw [if_neg hend]
+    have hklt : k < ncells := by
+      rcases Nat.lt_or_ge k ncells with h | h
+      · exact h
+      · exact absurd (by exact_mod_cast (le_antisymm hkn h)) hend
+    refine ⟨k + 3, by push_cast; ring, by omega, by omega, ?_, ?_, ?_, ?_, ?_, ?_⟩
+    · simp only; push_cast; ring
+    · simp only; linarith
+    · simp only; linarith
+    · simp only [uniformKnots]; rw [hxq]; push_cast; nlinarith
+    · simp only [uniformKnots]; rw [hxq]; push_cast; nlinarith
+    · intro _; simp only [uniformKnots]; rw [hxq]; push_cast; nlinarith
+
+example : cuBasisFuns (((5/4 : ℚ) - 0) / (1/2) - (((5 : ℕ) : ℚ) - 3)) = basisFuns (uniformKnots 0 (1/2)) 3 (5/4) 5 :=
+  (cubic_eq_general (0 : ℚ) (1/2) (by norm_num) 5 (by norm_num) (5/4)).1
+
+/-- the general span search on the uniform knot vector picks the cell that `cu_find_span` picks -/
+theorem cubic_same_cell (trunc : K → ℤ) (htr : ∀ q : K, 0 ≤ q → ((trunc q : ℤ) : K) ≤ q ∧ q < ((trunc q : ℤ) : K) + 1)
+    (xmin dx x : K) (hdx : 0 < dx) (ncells : ℕ) (hn : 1 ≤ ncells) (hx1 : xmin ≤ x) (hx2 : x ≤ xmin + (ncells : K) * dx) :
+    ∃ s : ℕ, (cuFindSpan trunc xmin dx x (ncells : ℤ)).1 = (s : ℤ) ∧ 3 ≤ s ∧
+      findSpan (uniformKnots xmin dx) (ncells + 7) 3 x = some s := by
+  obtain ⟨s, h1, h2, h3, _, _, _, h7, h8, h9⟩ := cuFindSpan_correct trunc htr xmin dx x hdx ncells hn hx1 hx2
+  refine ⟨s, h1, h2, ?_⟩
+  have hsm := uniformKnots_strictMono xmin dx hdx
+  have hm : Monotone (uniformKnots xmin dx) := hsm.monotone
+  have e3 : uniformKnots xmin dx 3 = xmin := by simp [uniformKnots]
+  have ehigh : uniformKnots xmin dx (ncells + 7 - 1 - 3) = xmin + (ncells : K) * dx := by
+    have : ncells + 7 - 1 - 3 = ncells + 3 := by omega
+    rw [this]; simp only [uniformKnots]; push_cast; ring
+  have hdom : uniformKnots xmin dx 3 < uniformKnots xmin dx (ncells + 7 - 1 - 3) := hsm (by omega)
+  obtain ⟨sp, hs, hs1, hs2, hfirst, hlast, hin⟩ := findSpan_some_correct (uniformKnots xmin dx) hm (ncells + 7) 3 x hdom
+  rw [hs]
+  congr 1
+  rcases lt_or_eq_of_le hx1 with hlt | heq
+  · rcases lt_or_eq_of_le hx2 with hlt2 | heq2
+    · -- strictly inside: both cells contain x
+      obtain ⟨ha, hb⟩ := hin (by rw [e3]; exact hlt) (by rw [ehigh]; exact hlt2)
+      have hb' := h9 hlt2
+      rcases Nat.lt_trichotomy sp s with h | h | h
+      · exact absurd (lt_of_lt_of_le hb (hm h)) (not_lt.mpr h7)
+      · exact h
+      · exact absurd (lt_of_lt_of_le hb' (hm h)) (not_lt.mpr ha)
+    · -- right end
+      have hsp : sp = ncells + 7 - 2 - 3 := hlast (by rw [ehigh, heq2])
+      have : ¬ (s + 1 < ncells + 3) := by
+        intro hlt3
+        have := hsm hlt3
+        rw [(by omega : ncells + 3 = ncells + 7 - 1 - 3), ehigh, ← heq2] at this
+        exact absurd h8 (not_le.mpr this)
+      omega
+  · -- left end
+    have hsp : sp = 3 := hfirst (by rw [e3, heq])
+    have : ¬ (3 < s) := by
+      intro hlt3
+      have := hsm hlt3
+      rw [e3] at this
+      exact absurd h7 (not_le.mpr (lt_of_eq_of_lt heq.symm this))
+    omega
+
+/-- what the cubic path feeds to the accumulation loops is what the general path computes on the uniform knots -/
+theorem cubic_span_basis (trunc : K → ℤ) (htr : ∀ q : K, 0 ≤ q → ((trunc q : ℤ) : K) ≤ q ∧ q < ((trunc q : ℤ) : K) + 1)
+    (xmin dx x : K) (hdx : 0 < dx) (ncells : ℕ) (hn : 1 ≤ ncells) (hx1 : xmin ≤ x) (hx2 : x ≤ xmin + (ncells : K) * dx) :
+    ∃ s : ℕ, findSpan (uniformKnots xmin dx) (ncells + 7) 3 x = some s ∧
+      ((cuFindSpan trunc xmin dx x (ncells : ℤ)).1 - 3).toNat = s - 3 ∧
+      ∀ der, cuBasisOrDer (cuFindSpan trunc xmin dx x (ncells : ℤ)).2 dx der
+        = basisOrDer (uniformKnots xmin dx) 3 x s der := by
+  obtain ⟨s, h1, h2, _, h4, _⟩ := cuFindSpan_correct trunc htr xmin dx x hdx ncells hn hx1 hx2
+  obtain ⟨s', h1', _, hfs⟩ := cubic_same_cell trunc htr xmin dx x hdx ncells hn hx1 hx2
+  have hss : s' = s := by exact_mod_cast (h1'.symm.trans h1)
+  subst hss
+  refine ⟨s', hfs, by rw [h1]; omega, ?_⟩
+  intro der
+  rw [h4]
+  obtain ⟨e1, e2⟩ := cubic_eq_general xmin dx (ne_of_gt hdx) s' h2 x
+  cases der
+  · simp only [cuBasisOrDer, basisOrDer, Bool.false_eq_true, if_false]; exact e1
+  · simp only [cuBasisOrDer, basisOrDer, if_true]; exact e2
+
+theorem cubic_path_eq_general_path (trunc : K → ℤ)
+    (htr : ∀ q : K, 0 ≤ q → ((trunc q : ℤ) : K) ≤ q ∧ q < ((trunc q : ℤ) : K) + 1)
+    (xmin dx x : K) (hdx : 0 < dx) (ncells : ℕ) (hn : 1 ≤ ncells) (hx1 : xmin ≤ x) (hx2 : x ≤ xmin + (ncells : K) * dx)
+    (c : ℕ → K) (der : Bool) :
+    evalSpline1D (uniformKnots xmin dx) (ncells + 7) 3 c x der
+      = some (cuEvalSpline1D trunc xmin dx (ncells : ℤ) c x der) := by
+  obtain ⟨s, hfs, hidx, hb⟩ := cubic_span_basis trunc htr xmin dx x hdx ncells hn hx1 hx2
+  unfold evalSpline1D cuEvalSpline1D
+  rw [hfs, Option.map_some]
+  simp only
+  rw [hidx, hb der]
+
+theorem cubic_path_eq_general_path_2d (trunc : K → ℤ)
+    (htr : ∀ q : K, 0 ≤ q → ((trunc q : ℤ) : K) ≤ q ∧ q < ((trunc q : ℤ) : K) + 1)
+    (xmin dx x : K) (hdx : 0 < dx) (ncx : ℕ) (hnx : 1 ≤ ncx) (hx1 : xmin ≤ x) (hx2 : x ≤ xmin + (ncx : K) * dx)
+    (ymin dy y : K) (hdy : 0 < dy) (ncy : ℕ) (hny : 1 ≤ ncy) (hy1 : ymin ≤ y) (hy2 : y ≤ ymin + (ncy : K) * dy)
+    (c : ℕ → ℕ → K) (der1 der2 : Bool) :
+    evalSpline2D (uniformKnots xmin dx) (ncx + 7) 3 (uniformKnots ymin dy) (ncy + 7) 3 c x y der1 der2
+      = some (cuEvalSpline2D trunc xmin dx (ncx : ℤ) ymin dy (ncy : ℤ) c x y der1 der2) := by
+  obtain ⟨s1, hfs1, hidx1, hb1⟩ := cubic_span_basis trunc htr xmin dx x hdx ncx hnx hx1 hx2
+  obtain ⟨s2, hfs2, hidx2, hb2⟩ := cubic_span_basis trunc htr ymin dy y hdy ncy hny hy1 hy2
+  unfold evalSpline2D cuEvalSpline2D
+  rw [hfs1, hfs2]
+  simp only
+  rw [hidx1, hidx2, hb1 der1, hb2 der2]
+
+example (c : ℕ → ℚ) (der : Bool) : evalSpline1D (uniformKnots (0 : ℚ) (1/2)) (4 + 7) 3 c 2 der
+    = some (cuEvalSpline1D exTrunc 0 (1/2) ((4 : ℕ) : ℤ) c 2 der) :=
+  cubic_path_eq_general_path exTrunc exTrunc_spec 0 (1/2) 2 (by norm_num) 4 (by norm_num) (by norm_num) (by norm_num) c der
+
+/-! ## 6. the derivative entry points return the derivative of the cell polynomial -/
+
+/-- on a non-empty cell every basis value is a polynomial function of `x` (A2.2 run in `K[X]`: its denominators are
+    differences of knots) and `nu_basis_funs_1st_der` returns the value of the **formal derivative** of that polynomial -/
+theorem ders_is_derivative (t : ℕ → K) (ht : Monotone t) (p span : ℕ) (hcell : t span < t (span + 1))
+    (r : ℕ) (hr : r ≤ p) :
+    ∃ q : K[X], (∀ x, (basisFuns t p x span).getD r 0 = q.eval x) ∧
+      (∀ x, (basisFunsDer t p x span).getD r 0 = (derivative q).eval x) :=
+  ⟨cellPoly t span p r, fun x => (cellPoly_eval t span p r hr x).symm,
+    fun x => (cellPoly_derivative_eval t ht span p r hcell hr x).symm⟩
+
+example : ∃ q : ℚ[X], (∀ x, (basisFuns exKnots 3 x 3).getD 1 0 = q.eval x) ∧
+    (∀ x, (basisFunsDer exKnots 3 x 3).getD 1 0 = (derivative q).eval x) :=
+  ders_is_derivative exKnots exKnots_mono 3 3 (by norm_num [exKnots]) 1 (by norm_num)
+
+/-- consequently the 1-D entry point with `der = 1` returns the derivative of the polynomial it returns with `der = 0`
+    on the cell the span search selects -/
+theorem evalSpline1D_der_is_derivative (t : ℕ → K) (ht : Monotone t) (nk p : ℕ) (c : ℕ → K) (span : ℕ)
+    (hcell : t span < t (span + 1)) :
+    ∃ q : K[X], ∀ x, findSpan t nk p x = some span →
+      evalSpline1D t nk p c x false = some (q.eval x) ∧ evalSpline1D t nk p c x true = some ((derivative q).eval x) := by
+  refine ⟨((List.range (p + 1)).map (fun j => C (c (span - p + j)) * cellPoly t span p j)).sum, ?_⟩
+  intro x hs
+  rw [evalSpline1D_eq_dot t nk p c x false span hs, evalSpline1D_eq_dot t nk p c x true span hs]
+  have h0 : ∀ q : K[X], q.eval x = evalRingHom x q := fun q => rfl
+  constructor
+  · congr 1
+    rw [h0, map_list_sum, List.map_map]
+    apply congrArg
+    apply List.map_congr_left
+    intro j hj
+    have hj' : j ≤ p := by have := List.mem_range.mp hj; omega
+    simp only [Function.comp, coe_evalRingHom, eval_mul, eval_C, basisOrDer, Bool.false_eq_true, if_false]
+    rw [cellPoly_eval t span p j hj' x]
+  · congr 1
+    rw [map_list_sum, h0, map_list_sum, List.map_map, List.map_map]
+    apply congrArg
+    apply List.map_congr_left
+    intro j hj
+    have hj' : j ≤ p := by have := List.mem_range.mp hj; omega
+    simp only [Function.comp, coe_evalRingHom, derivative_mul, derivative_C, zero_mul, zero_add, eval_mul, eval_C,
+      basisOrDer, if_true]
+    rw [cellPoly_derivative_eval t ht span p j hcell hj' x]
+
+example (c : ℕ → ℚ) : ∃ q : ℚ[X], ∀ x, findSpan exKnots 8 2 x = some 3 →
+    evalSpline1D exKnots 8 2 c x false = some (q.eval x) ∧ evalSpline1D exKnots 8 2 c x true = some ((derivative q).eval x) :=
+  evalSpline1D_der_is_derivative exKnots exKnots_mono 8 2 c 3 (by norm_num [exKnots])
+/-! ## 7. periodic splines: both ends of the period -/
+
+/-- full statement of the periodic clause: on periodic knots (`t_{i+n} = t_i + L`, `nk = n + 2p + 1`) with wrapped
+    coefficients (`c_{n+i} = c_i`, `i < p`) the spline takes equal values (`p ≥ 1`) and equal slopes (`p ≥ 2`) at both
+    ends `t_p` and `t_{p+n}` of the period -/
+def periodic_ends_equal_statement (K : Type*) [Field K] [LinearOrder K] : Prop :=
+  ∀ (t : ℕ → K) (n p : ℕ) (L : K) (c : ℕ → K), StrictMono t → 1 ≤ p → p ≤ n →
+    (∀ i, t (i + n) = t i + L) → (∀ i, i < p → c (n + i) = c i) →
+    evalSpline1D t (n + 2 * p + 1) p c (t (p + n)) false = evalSpline1D t (n + 2 * p + 1) p c (t p) false ∧
+    (2 ≤ p → evalSpline1D t (n + 2 * p + 1) p c (t (p + n)) true = evalSpline1D t (n + 2 * p + 1) p c (t p) true)
+
+/-- proved part of the periodic clause: translation invariance.  Evaluating (value or first derivative) in cell `span+n`
+    at `x+L` with coefficients periodic over the active window gives what cell `span` gives at `x`.  Missing for
+    `periodic_ends_equal_statement`: continuity of the spline (and of its slope) across the knot `t_p`, which identifies the
+    polynomial of the last cell at its right end with that of the cell after it. -/
+theorem periodic_ends_equal_partial (t : ℕ → K) (n : ℕ) (L : K) (hper : ∀ i, t (i + n) = t i + L) (p span : ℕ)
+    (hp : p ≤ span) (c : ℕ → K) (hc : ∀ j, j ≤ p → c (span - p + j + n) = c (span - p + j)) (x : K) (der : Bool) :
+    dotFrom c (span + n - p) (basisOrDer t p (x + L) (span + n) der)
+      = dotFrom c (span - p) (basisOrDer t p x span der) := by
+  have hb : basisOrDer t p (x + L) (span + n) der = basisOrDer t p x span der := by
+    unfold basisOrDer
+    cases der
+    · simp only [Bool.false_eq_true, if_false]; exact basisFuns_shift t n L hper p span (by omega) x
+    · simp only [if_true]; exact basisFunsDer_shift t n L hper p span (by omega) x
+  rw [hb, dotFrom_eq_sum, dotFrom_eq_sum, basisOrDer_length]
+  apply congrArg
+  apply List.map_congr_left
+  intro j hj
+  have hj' : j ≤ p := by have := List.mem_range.mp hj; omega
+  have : span + n - p + j = span - p + j + n := by omega
+  rw [this, hc j hj']
+
+example (c : ℕ → ℚ) (hc : ∀ j, j ≤ 2 → c (3 - 2 + j + 4) = c (3 - 2 + j)) :
+    dotFrom c (3 + 4 - 2) (basisOrDer exKnots 2 (7/2 + 4) (3 + 4) true)
+      = dotFrom c (3 - 2) (basisOrDer exKnots 2 (7/2) 3 true) :=
+  periodic_ends_equal_partial exKnots 4 4 (fun i => by simp [exKnots]) 2 3 (by norm_num) c hc (7/2) true
 end PygyroVerif.C07
